@@ -23,6 +23,9 @@ def main():
         # module-level state of torch that the library must not depend on: the whole check can be run under another default dtype
         import torch
         torch.set_default_dtype(getattr(torch, os.environ["VERIF_DEFAULT_DTYPE"]))
+    if os.environ.get("VERIF_DUMP_AFTER"):
+        import faulthandler
+        faulthandler.dump_traceback_later(int(os.environ["VERIF_DUMP_AFTER"]), repeat=True)       # where a long run spends its time (diagnostics only)
     mod = importlib.import_module("checks." + a.pid.lower())
     try:
         rc = mod.run(tier, seed, replay=a.replay)
